@@ -237,6 +237,19 @@ def check(chk):
     # ------------------------------------------------------------- SORT-1
     _sort_rule(chk, f_add)
     _removal_complete(chk, repo)
+    # "delivered to each handler": the dispatch loop of _run_handlers is left before the last handler only by a boolean event whose handler
+    # returned False (shared with C02 DOM-5); relay and plain events always reach every handler
+    rh_f = repo.func(EV, EM + "._run_handlers")
+    rcfg = rh_f.cfg()
+    heads_ = [h for h in rcfg.nodes if h.kind == "loop"]
+    chk.need(heads_, "DOM-2", "_run_handlers loops over the handlers", rh_f)
+    leaves_ = [n for n in rcfg.nodes if n.kind == "stmt" and isinstance(n.ast, (ast.Break, ast.Return)) and any(y is n.ast for y in ast.walk(heads_[0].ast))]
+    for n in leaves_:
+        g = rcfg.guards_at(n.id)
+        ok = g.get("ev_type == 'boolean'") is True and any(k.endswith(" is False") and v is True for k, v in g.items())
+        chk.ob("DOM-2", "the dispatch loop is left before the last handler only by a boolean event whose handler returned False", ok, rh_f.where(n.ast),
+               detail="guards %s" % sorted((k, v) for k, v in g.items() if v is True)[:5], construct=rh_f.ident, text="dispatch loop left early")
+    chk.ob("DOM-2", "early exits of the dispatch loop examined", len(leaves_) >= 1, rh_f.where(), detail=str(len(leaves_)), nontrivial=False)
     # "not removed before its turn" presupposes that removal by key finds the registration: the returned key carries the parsed event name and
     # the stored key (obligation shared with C07)
     from sa.rules.c07 import _handler_keys
@@ -1047,6 +1060,7 @@ def battery():
         M("replace_handler without kwargs keeps registrations that carry kwargs", EV, "            if kwargs:\n                # slice the full list [:] to make a copy so we can delete from the\n                # original while iterating\n                for rh in self.registered_handlers[event][:]:\n                    if rh[0] == handler and rh[2] == kwargs:\n                        self.registered_handlers[event].remove(rh)\n            else:\n                for rh in self.registered_handlers[event][:]:\n                    if rh[0] == handler:\n                        self.registered_handlers[event].remove(rh)\n", "            for rh in self.registered_handlers[event][:]:\n                if rh[0] == handler and rh[2] == kwargs:\n                    self.registered_handlers[event].remove(rh)\n", "REMOVE-1"),
         M("twin: replace_handler scans merged correctly", EV, "            if kwargs:\n                # slice the full list [:] to make a copy so we can delete from the\n                # original while iterating\n                for rh in self.registered_handlers[event][:]:\n                    if rh[0] == handler and rh[2] == kwargs:\n                        self.registered_handlers[event].remove(rh)\n            else:\n                for rh in self.registered_handlers[event][:]:\n                    if rh[0] == handler:\n                        self.registered_handlers[event].remove(rh)\n", "            for rh in self.registered_handlers[event][:]:\n                if rh[0] == handler and (not kwargs or rh[2] == kwargs):\n                    self.registered_handlers[event].remove(rh)\n", None),
         M("returned handler key is a fresh uuid", EV, "        return EventHandlerKey(key, event)", "        return EventHandlerKey(uuid.uuid4(), event)", "KEY-7"),
+        M("relay events abort on False like boolean ones", EV, "            if ev_type == 'boolean' and result is False:", "            if ev_type and result is False:", "DOM-2"),
     ]
 
 
